@@ -143,6 +143,61 @@ fn counted_slice<T: Decode>(b: &[u8]) -> (bool, u64, usize) {
 	(ok, count, b.len() - s.len())
 }
 
+// A zero-sized `Input` type (its state lives in a thread-local): whatever the decoder derives from
+// the *type* of its input must not matter. It does not know its remaining length.
+thread_local! {
+	static ZST_INPUT: core::cell::RefCell<(Vec<u8>, usize, u64)> = const { core::cell::RefCell::new((Vec::new(), 0, 0)) };
+}
+
+pub struct ZstInput;
+
+/// load the bytes the next `ZstInput` decodes from (done outside any allocation bracket)
+pub fn zst_input_load(b: &[u8]) {
+	ZST_INPUT.with(|z| {
+		let mut z = z.borrow_mut();
+		z.0.clear();
+		z.0.extend_from_slice(b);
+		z.1 = 0;
+		z.2 = 0;
+	});
+}
+
+/// (position, bytes delivered) of the thread's `ZstInput`
+pub fn zst_input_state() -> (usize, u64) {
+	ZST_INPUT.with(|z| {
+		let z = z.borrow();
+		(z.1, z.2)
+	})
+}
+
+impl Input for ZstInput {
+	fn remaining_len(&mut self) -> Result<Option<usize>, parity_scale_codec::Error> {
+		Ok(None)
+	}
+	fn read(&mut self, into: &mut [u8]) -> Result<(), parity_scale_codec::Error> {
+		ZST_INPUT.with(|z| {
+			let mut z = z.borrow_mut();
+			let pos = z.1;
+			if into.len() > z.0.len() - pos {
+				return Err("zst input: end of data".into());
+			}
+			into.copy_from_slice(&z.0[pos..pos + into.len()]);
+			z.1 += into.len();
+			z.2 += into.len() as u64;
+			Ok(())
+		})
+	}
+}
+
+/// `T::decode` directly over the zero-sized input type (bytes loaded with [`zst_input_load`])
+fn zst_keep<T: Decode + 'static>() -> Option<Box<dyn core::any::Any>> {
+	T::decode(&mut ZstInput).ok().map(|x| Box::new(x) as Box<dyn core::any::Any>)
+}
+
+fn zst_val<T: Modelled + Decode>() -> Option<Val> {
+	T::decode(&mut ZstInput).ok().map(|x| x.to_val())
+}
+
 fn skip_dyn<T: Decode>(i: &mut dyn Input) -> bool {
 	T::skip(&mut Dyn(i)).is_ok()
 }
@@ -198,6 +253,9 @@ pub struct DecOps {
 	pub counted: fn(&[u8], u64) -> (bool, u64, u64, usize),
 	/// the same over the library's own slice input: (ok, count(), bytes the slice advanced by)
 	pub counted_slice: fn(&[u8]) -> (bool, u64, usize),
+	/// decode over the zero-sized input type [`ZstInput`]: the object itself / its value
+	pub zst_keep: fn() -> Option<Box<dyn core::any::Any>>,
+	pub zst_val: fn() -> Option<Val>,
 	pub all: fn(&[u8]) -> Option<Val>,
 	pub depth_slice: fn(u32, &[u8]) -> (Option<Val>, usize),
 	pub all_depth: fn(u32, &[u8]) -> Option<Val>,
@@ -255,6 +313,8 @@ impl TypeOps {
 			skip: skip_dyn::<T>,
 			counted: counted_direct::<T>,
 			counted_slice: counted_slice::<T>,
+			zst_keep: zst_keep::<T>,
+			zst_val: zst_val::<T>,
 			all: dec_all::<T>,
 			depth_slice: dec_depth_slice::<T>,
 			all_depth: dec_all_depth::<T>,
